@@ -85,7 +85,7 @@ func (env *CEnv) eval(e *CExpr) Val {
 	case "old":
 		n := *env
 		n.inOld = true
-		return n.eval(e.X)
+		return freeze(n.eval(e.X), env.old)
 	case "forall", "exists":
 		sub := env
 		var bound []*Term
@@ -222,7 +222,31 @@ func (env *CEnv) qualified(qual, name string) (Val, bool) {
 	return nil, false
 }
 
+// freeze binds a reference value to a state: dereferences made later (inside predicates) read that state.
+func freeze(v Val, st *State) Val {
+	switch x := v.(type) {
+	case PV:
+		if x.Frozen == nil {
+			x.Frozen = st
+		}
+		return x
+	case LV:
+		if x.Frozen == nil {
+			x.Frozen = st
+		}
+		return x
+	}
+	return v
+}
+
 func (env *CEnv) readPV(pv PV, extra []Sel) Val {
+	if pv.Frozen != nil {
+		n := *env
+		n.st, n.old, n.inOld = pv.Frozen, pv.Frozen, false
+		pv2 := pv
+		pv2.Frozen = nil
+		return freeze(n.readPV(pv2, extra), pv.Frozen)
+	}
 	st := env.state()
 	cv, ok := st.cells[pv.Cell]
 	if !ok {
@@ -277,6 +301,13 @@ func (env *CEnv) field(base Val, name string, e *CExpr) Val {
 }
 
 func (env *CEnv) memOf(lv LV) *Term {
+	if lv.Frozen != nil {
+		n := *env
+		n.st, n.old, n.inOld = lv.Frozen, lv.Frozen, false
+		lv2 := lv
+		lv2.Frozen = nil
+		return n.memOf(lv2)
+	}
 	st := env.state()
 	cv, ok := st.cells[lv.Cell]
 	if !ok {
@@ -613,7 +644,7 @@ func (env *CEnv) call(e *CExpr) Val {
 		for _, a := range e.Args[2:] {
 			vals = append(vals, env.eval(a))
 		}
-		in := c.pureInputs(env.state(), con, pn, vals)
+		in := []*Term{App("pack$"+key, Sort("PureIn"), c.pureInputs(env.state(), con, pn, vals)...)}
 		sig := fi.Obj.Type().(*types.Signature)
 		srt := SInt
 		if strings.HasPrefix(which, "r") {
